@@ -1312,7 +1312,8 @@ async fn server_scenarios(out: &mut Out) {
     }
     server.abort();
     out.count("tcp:server:scenario");
-    if !got5 || !got7 {
+    if !got7 {
+        // not even a fresh connection gets a frame through: the server is not there
         out.violation(
             "C06:msg:harness:server-timeout",
             "the real gossip server did not hand a sentinel frame to the delta callback within 90 s",
@@ -1320,6 +1321,7 @@ async fn server_scenarios(out: &mut Out) {
         );
         return;
     }
+    // (a first connection that never delivered its sentinel shows below as the frames that are missing)
     expected.push(dids(&[d7.clone()]));
     let got: Vec<String> = sink.lock().iter().map(|ds| dids(ds)).collect();
     out.case("tcp server: frames of every kind, AT the size limit, garbage, one byte above the limit, reconnect", true);
@@ -1440,7 +1442,8 @@ async fn reconnect_scenario(out: &mut Out) {
             None => ok = false,
         }
     }
-    out.count(&format!("tcp:reconnect:lost-in-the-dead-connection:{}", if queued.len() > ids.len() { "some" } else { "none" }));
+    // (how many frames were written into the dead connection before the break was noticed depends on
+    // the kernel's timing: not recorded, the evidence stays a function of the seed)
     if !ok {
         out.violation(
             "C06:msg:tcp:frames-out-of-order-or-duplicated-after-reconnect",
